@@ -116,8 +116,13 @@ class JaxMod(NumpyMod):
         import numpy as np
         import jax
 
-        s = np.array(states, dtype=float)
-        p = np.array(params, dtype=float)
+        s0 = np.array(states, dtype=float)
+        p0 = np.array(params, dtype=float)
+        s, p = s0, p0
+        if self.jit:
+            # jitted calls receive JAX arrays, as in a time loop; they must still be alive and unchanged afterwards
+            import jax.numpy as jnp
+            s, p = jnp.asarray(s0), jnp.asarray(p0)
         extra = [] if missing is None else [np.array(missing, dtype=float)]
 
         def go():
@@ -130,7 +135,10 @@ class JaxMod(NumpyMod):
         else:
             with jax.disable_jit():
                 out = go()
-        self.inputs_unchanged = True
+        try:
+            self.inputs_unchanged = bool(np.array_equal(np.asarray(s), s0) and np.array_equal(np.asarray(p), p0))
+        except RuntimeError:      # "Array has been deleted": the call consumed its argument
+            self.inputs_unchanged = False
         out = np.asarray(out)
         return [float(x) for x in out.ravel()], tuple(out.shape)
 
